@@ -26,7 +26,7 @@ RULE = ('case = history of <= 12 (quick) / 25 (thorough) public operations + one
         'is_bearable / die_if_unbearable / is_subhint / TypeHint == / decorate-and-call over hints built fresh but structurally equal, '
         'hash-equal look-alikes (Literal[1]/[True]/[0]/[False], 1/True/1.0 in Annotated metadata), unhashable hints (Annotated[T, []]), '
         'dynamically (re)defined same-named classes (distinct class objects with one qualified name, optionally @beartype-decorated; '
-        'hot-reload chains of 2-7 decorated generations), '
+        'hot-reload chains of 2-7 decorated generations; comparisons across the PEP 585/604 and the typing spelling of one container over same-named classes), '
         'string forward references that fail first and are defined later, dropping references + gc.collect() followed by look-alike '
         'allocations, and beartype\'s own cache clearing. Oracle: the same final query in a sibling fork with no history (verdict / exception '
         'class), plus idempotence (asking twice in one process gives the same answer). non-trivial = the history contains an operation whose '
